@@ -30,6 +30,23 @@ var c14Templates = []string{
 	`S1F1 <A "x"?>.`,                    // 18 after the closing quote
 	`S1F1 <B? 1>.`,                      // 19 second character of the type
 	`S1F? <L[?]>.`,                      // 20 function code / size bracket content
+	`S1F1 <A[?`,                         // 21 input ends inside the size bracket
+	`S1F1 <A[.?`,                        // 22 ... after the first dot of a range
+	`S1F1 <L[1.?`,                       // 23 ... inside a range
+	`S1F1 <A[?..?] "x">.`,               // 24 size range with symbolic bounds
+	`S1F1 <U1[..#] 1>.`,                 // 25 open-ended range with a hint
+	`S1F1 <L[#..#]>.`,                   // 26 range of two hints
+	`S1F1 <A "\?" 0x?1>.`,              // 27 escape in a quoted run, numeric token (strict grammar)
+	`S1F1 <A 0x4? 1?>.`,                 // 28 numeric ASCII tokens
+	"S1F1 <U1 1>.?S2F2 <U1 2>?",         // 29 between / after two messages
+	`S1F1 <J[#] "?">.`,                  // 30 JIS-8 with hint
+	`S1F1 <W[#] "?">.`,                  // 31 localized with hint
+	`S1F1 <L <U1 1>?`,                   // 32 input ends inside a list
+	`S1F1 <U1 1 ?`,                      // 33 input ends inside an item
+	`'S1F?' W <U1 1>.`,                  // 34 quoted stream/function
+	`"S?F1"?<U1 1>.`,                    // 35 double-quoted stream/function
+	`S1F1 <BOOLEAN T ~>.`,               // 36 boolean tokens
+	`S1F1 <I8 -?>.`,                     // 37 signed text
 }
 
 // c14Hints: the size hints tried wherever a template has a run of '#': small, plausible, absurd,
@@ -99,18 +116,42 @@ func c14Check(input string, strict bool) {
 	}
 }
 
-// VerifC14_Templates: each template x strict/non-strict with its holes fully symbolic.
-func VerifC14_Templates() {
-	vsymExpect("error")
-	vsymExpect("parsed")
-	n := len(c14Templates)
-	t := vsymChoose(n)
+// c14Region marks the templates on which the recorded (fixed) defects manifested.
+func c14Region(t int) {
 	switch t {
 	case 0:
 		vsymRegion("unterminatedQuotedASCII")
-	case 2, 3, 4, 5, 6, 7, 16, 17:
+	case 2, 3, 4, 5, 6, 7, 16, 17, 25, 26, 30, 31:
 		vsymRegion("sizeHintPreallocation")
 	}
+}
+
+const c14FirstBatch = 21
+
+// VerifC14_Templates: templates 0..20 x strict/non-strict with their holes fully symbolic.
+func VerifC14_Templates() {
+	vsymExpect("error")
+	vsymExpect("parsed")
+	t := vsymChoose(c14FirstBatch)
+	c14Region(t)
+	input := c14Fill(c14Templates[t])
+	c14Check(input, vsymBool())
+}
+
+// VerifC14_Templates2: templates 21.. (size ranges, truncations, escapes, several messages, quoted
+// stream/function, boolean and signed tokens) x strict/non-strict.
+func VerifC14_Templates2() {
+	vsymExpect("error")
+	vsymExpect("parsed")
+	var t int
+	if vsymTier() == 1 {
+		t = c14FirstBatch + vsymChoose(len(c14Templates)-c14FirstBatch)
+	} else {
+		// quick: the templates with one hole (the two-hole ones, 256 x 256 values each, are thorough only)
+		quick := []int{21, 22, 23, 25, 26, 30, 31, 32, 33, 34, 36, 37}
+		t = quick[vsymChoose(len(quick))]
+	}
+	c14Region(t)
 	input := c14Fill(c14Templates[t])
 	c14Check(input, vsymBool())
 }
